@@ -41,6 +41,8 @@ def stages(tier, rng, only=None):
         + [ac.tied_heavy_dataset(rng) for _ in range(n_rand)]
         + [ac.random_dataset(rng, 6, 5, nmin=2) for _ in range(n_rand // 2)], ["PickAPerm"],
         [ac.P_UNI1, ac.P_UNI1, ac.P_UNI5, ac.P_IND1], rng, flags=(1, 0), all_ops=True), _nt))
+    out.append(ac.stage("larger", PID, lambda: ac.cases([ac.larger_dataset(rng) for _ in range(n_rand // 4)], ["PickAPerm"],
+                                                        SCHEMES, flags=(1, 0)), _nt))
     out.append(ac.stage("majority_lookalikes", PID, lambda: ac.cases(
         ac.majority_datasets(), ["PickAPerm"], [ac.P_UNI1, ac.P_UNI5, ac.P_PSE1, ac.P_EXT], flags=(0, 1),
         namings=["weird", "weird", "letters"], all_schemes=True), _nt))
